@@ -8450,6 +8450,13 @@ is_cpp_type_legal(CPPType *in_ctype) {
 
   type = TypeManager::unwrap(type);
 
+  if (type->is_template()) {
+    // A template that has not been instantiated (which is also what Tup<>,
+    // with an empty argument list for a parameter pack, comes out as) is not
+    // a type we can record, so we cannot wrap anything that involves it.
+    return false;
+  }
+
   if (TypeManager::is_void(type)) {
     return true;
   } else if (TypeManager::is_basic_string_char(type)) {
@@ -8503,6 +8510,12 @@ get_legal_bases(const InterrogateType &itype, std::vector<CPPType*> &result) {
  */
 bool InterfaceMakerPythonNative::
 isExportThisRun(CPPType *ctype) {
+  if (ctype == nullptr) {
+    // A type we could not record (such as Tup<>, the instantiation of a
+    // variadic template with no arguments) has none.
+    return false;
+  }
+
   if (builder.in_forcetype(ctype->get_local_name(&parser))) {
     return true;
   }
